@@ -1,6 +1,7 @@
 package main
 
 import (
+	"errors"
 	"context"
 	"fmt"
 	"io"
@@ -150,6 +151,10 @@ func repoArgPositions(method string) []int {
 // wrapperArgs builds the argument list (ctx first) for a call of method on reg:
 // repository parameters get the given names, every other parameter a value
 // unique to its position.
+// wrapperArgsBoundary: non-repository parameters get boundary values instead (offsets 0 and -1,
+// zero sizes, empty strings and slices): a wrapper's decision may not depend on them.
+var wrapperArgsBoundary bool
+
 func wrapperArgs(reg any, method string, ctx context.Context, repos ...string) (reflect.Value, []reflect.Value, bool) {
 	m := reflect.ValueOf(reg).MethodByName(method)
 	if !m.IsValid() {
@@ -170,6 +175,25 @@ func wrapperArgs(reg any, method string, ctx context.Context, repos ...string) (
 		switch {
 		case isRepo >= 0:
 			v.SetString(repos[isRepo])
+		case wrapperArgsBoundary && t.Kind() == reflect.String:
+			v.SetString("")
+		case wrapperArgsBoundary && (t.Kind() == reflect.Int64 || t.Kind() == reflect.Int):
+			// the first numeric parameter 0, any later one -1: GetBlobRange(…, 0, -1) is "the whole blob"
+			first := true
+			for j := 1; j < i; j++ {
+				if k := mt.In(j).Kind(); k == reflect.Int64 || k == reflect.Int {
+					first = false
+				}
+			}
+			if first {
+				v.SetInt(0)
+			} else {
+				v.SetInt(-1)
+			}
+		case wrapperArgsBoundary && t == descriptorType:
+			v.Set(reflect.ValueOf(ociregistry.Descriptor{}))
+		case wrapperArgsBoundary && t == reflect.TypeOf([]byte(nil)):
+			v.Set(reflect.ValueOf([]byte{}))
 		case t.Kind() == reflect.String:
 			v.SetString(fmt.Sprintf("arg%d", i-1))
 		case t.Kind() == reflect.Int64 || t.Kind() == reflect.Int:
@@ -237,10 +261,16 @@ func seqEvents(seq reflect.Value) (n int, items []reflect.Value, err error) {
 // resultError extracts the error a wrapper method reported: the error result,
 // or for iterator results the single error event (nil when the iterator
 // delivers anything else).
+// errSeqUnstable: an iterator result that delivers something else when it is iterated again.
+var errSeqUnstable = errors.New("the returned sequence differs on its second iteration")
+
 func resultError(res []reflect.Value) error {
 	last := res[len(res)-1]
 	if last.Kind() == reflect.Func {
 		n, items, err := seqEvents(last)
+		if n2, items2, err2 := seqEvents(last); n2 != n || len(items2) != len(items) || err2 != err {
+			return errSeqUnstable
+		}
 		if n == 1 && len(items) == 0 {
 			return err
 		}
